@@ -71,7 +71,7 @@ class Controller:
         self.context_switches = 0
         self.abort = False
 
-    STALL_SECONDS = 6.0
+    STALL_SECONDS = 8.0
 
     def step(self, i):
         import time
@@ -179,6 +179,16 @@ def solo_parsers(srcs):
 def check_parsers(srcs, schedule, st, subcheck="parsers"):
     solo = solo_parsers(srcs)
     res, ctl = run_parsers(srcs, schedule)
+    if ("stalled",) in res:
+        # a stall may be machine load (threads not scheduled for seconds): only a
+        # stall that repeats with a ten times longer limit counts
+        st.classes["stalls_retried"] += 1
+        old = Controller.STALL_SECONDS
+        Controller.STALL_SECONDS = 10 * old
+        try:
+            res, ctl = run_parsers(srcs, schedule)
+        finally:
+            Controller.STALL_SECONDS = old
     st.evaluations += 1
     case = ("parsers", list(srcs), list(schedule))
     if res != solo:
@@ -220,6 +230,15 @@ def check_generators(asts, schedule, st):
             return ("err", type(e).__name__)
 
     res = ctl.run([work] * n, schedule)
+    if ("stalled",) in res:
+        st.classes["stalls_retried"] += 1
+        old = Controller.STALL_SECONDS
+        Controller.STALL_SECONDS = 10 * old
+        try:
+            ctl = Controller(n)
+            res = ctl.run([work] * n, schedule)
+        finally:
+            Controller.STALL_SECONDS = old
     st.evaluations += 1
     exp = [solo(i) for i in range(n)]
     if res != exp:
@@ -261,6 +280,15 @@ def check_visitors(asts, schedule, st):
         return log
 
     res = ctl.run([work] * n, schedule)
+    if ("stalled",) in res:
+        st.classes["stalls_retried"] += 1
+        old = Controller.STALL_SECONDS
+        Controller.STALL_SECONDS = 10 * old
+        try:
+            ctl = Controller(n)
+            res = ctl.run([work] * n, schedule)
+        finally:
+            Controller.STALL_SECONDS = old
     st.evaluations += 1
     try:
         exp = [solo(i) for i in range(n)]
